@@ -186,6 +186,22 @@ pub fn apply_model<P: PT>(m: M, st: &Step) -> M {
     }
 }
 
+/// do all partial sums while applying the terms of `st` one by one stay inside the quire's range?
+pub fn step_stays_in_range<Q: QT>(m: &M, st: &Step) -> bool {
+    let mut cur = *m;
+    let mask = gen::mask(<Q::P as PT>::N);
+    for (neg, a, b) in terms_of(st) {
+        let one = Step { code: if b.is_some() { if neg { 1 } else { 0 } } else if neg { 3 } else { 2 }, p: [a & mask, b.unwrap_or(0) & mask, 0, 0] };
+        cur = apply_model::<Q::P>(cur, &one);
+        if let M::Sum(s) = &cur {
+            if image_of(s, Q::FRAC, Q::BITS).is_none() {
+                return false;
+            }
+        }
+    }
+    true
+}
+
 pub struct Flags {
     pub c12: bool,
 }
@@ -225,19 +241,27 @@ pub fn run_history<Q: QT>(steps: &[Step], perm: u64, fl: &Flags, l: &mut Local) 
     let mut had_nar = false;
     let mut mixed = (false, false);
     let mut nterms = 0;
+    let mut applied: Vec<usize> = vec![];
     for (i, st) in steps.iter().enumerate() {
         let m2 = apply_model::<Q::P>(m, st);
-        // range guard (cannot trigger for <= 24 steps of <= 4 products; kept as an explicit domain check)
+        // range guard: a step that would take the exact sum outside the quire's range is outside the
+        // property's domain; it is not applied (only long thorough-tier histories of Q8 ever get here)
         if let M::Sum(s) = &m2 {
             if image_of(s, Q::FRAC, Q::BITS).is_none() {
                 l.label("dropped_for_range");
                 continue;
             }
         }
+        // intermediate sums inside a multi-product step must stay in range too
+        if !step_stays_in_range::<Q>(&m, st) {
+            l.label("dropped_for_range");
+            continue;
+        }
         if let Err(e) = guard(|| apply_real(&mut q, st)) {
             return Err(Viol::panic(format!("{}.{}@step{}", Q::NAME, CODES[st.code as usize], i + 1), &args, "no panic".into(), e));
         }
         m = m2;
+        applied.push(i);
         l.eval();
         for (neg, _, _) in terms_of(st) {
             nterms += 1;
@@ -254,19 +278,33 @@ pub fn run_history<Q: QT>(steps: &[Step], perm: u64, fl: &Flags, l: &mut Local) 
     }
     // order independence (metamorphic): the same terms, permuted, give the same image
     let plain = steps.iter().all(|s| s.code != NEG && s.code != CLEAR);
-    if plain && steps.len() >= 2 {
-        let mut idx: Vec<usize> = (0..steps.len()).collect();
+    if plain && applied.len() >= 2 {
+        let mut idx: Vec<usize> = applied.clone();
         idx.sort_by_key(|&i| splitmix(perm ^ (i as u64).wrapping_mul(0x9E37_79B9_7F4A_7C15)));
-        let mut q2 = Q::init();
+        // the permuted order must itself keep every partial sum inside the range (domain of the property)
+        let mut mm = M::Sum(Dy::ZERO);
+        let mut in_range = true;
         for &i in &idx {
-            if let Err(e) = guard(|| apply_real(&mut q2, &steps[i])) {
-                return Err(Viol::panic(format!("{}.permuted", Q::NAME), &args, "no panic".into(), e));
+            if !step_stays_in_range::<Q>(&mm, &steps[i]) {
+                in_range = false;
+                break;
             }
+            mm = apply_model::<Q::P>(mm, &steps[i]);
         }
-        l.eval();
-        let (i1, i2) = (q.image(), q2.image());
-        if i1 != i2 {
-            return Err(Viol::wrong_s(format!("{}.order_independence", Q::NAME), &args, img_hex(&i1), img_hex(&i2)));
+        if in_range {
+            let mut q2 = Q::init();
+            for &i in &idx {
+                if let Err(e) = guard(|| apply_real(&mut q2, &steps[i])) {
+                    return Err(Viol::panic(format!("{}.permuted", Q::NAME), &args, "no panic".into(), e));
+                }
+            }
+            l.eval();
+            let (i1, i2) = (q.image(), q2.image());
+            if i1 != i2 {
+                return Err(Viol::wrong_s(format!("{}.order_independence", Q::NAME), &args, img_hex(&i1), img_hex(&i2)));
+            }
+        } else {
+            l.label("permutation_skipped(range)");
         }
     }
     // labels / non-triviality
